@@ -174,6 +174,23 @@ def run(tier: str, only=None) -> core.Result:
     parent_sites = serialisers.discover_sites()
     b_wire = [{"op": "drive", "site": s["site"]} for s in parent_sites] if do_b else []
 
+    # part B runs in the background from the start: every serialiser site is driven in a process of its own (so that what
+    # one driver instantiated cannot influence the next), once more for the determinism audit
+    b_box: Dict[str, Any] = {}
+
+    def drive_b():
+        try:
+            b_box["ans"] = orderdep.per_config(CONFIGS, lambda cfg: [r[0] for r in workers.fresh_sequences(
+                cfg, HANDLER, [[w] for w in b_wire], parallel=4)])
+            b_box["again"] = orderdep.per_config(CONFIGS, lambda cfg: [r[0] for r in workers.fresh_sequences(
+                cfg, HANDLER, [[w] for w in reversed(b_wire)], parallel=4)])
+        except BaseException as e:  # noqa: BLE001
+            b_box["err"] = e
+
+    b_thread = threading.Thread(target=drive_b)
+    b_thread.start()
+    im_cases = c09.inputmut_cases(tier, a_cases) if do_a else []
+    im_join = c09.start_inputmut(HANDLER, im_cases) if im_cases else None
     pools = start_pools(workers.per_config_workers(len(CONFIGS)))
     try:
         hello = {n: p.hello for n, p in pools.items()}
@@ -189,8 +206,10 @@ def run(tier: str, only=None) -> core.Result:
     iso_history = {n: (lambda i, p=p: p.history_before(i, 1)) for n, p in pools.items()}
     # every serialiser site is driven in a process of its own, so that what one driver instantiated
     # cannot influence the next
-    b_ans = orderdep.per_config(CONFIGS, lambda cfg: [r[0] for r in workers.fresh_sequences(cfg, HANDLER, [[w] for w in b_wire])])
-    b_again = orderdep.per_config(CONFIGS, lambda cfg: [r[0] for r in workers.fresh_sequences(cfg, HANDLER, [[w] for w in reversed(b_wire)])])
+    b_thread.join()
+    if "err" in b_box:
+        raise core.HarnessError(f"serialiser driving failed: {b_box['err']}")
+    b_ans, b_again = b_box["ans"], b_box["again"]
 
     for n in hello:
         if hello[n]["classes"] != class_list:
@@ -344,6 +363,89 @@ def run(tier: str, only=None) -> core.Result:
             if hit:
                 iso_info["violating_cases"] += 1
 
+    # ---- input mutated after validation: the dump of an object must not change unless the object is changed ----
+    im_info: Dict[str, Any] = {"cases": 0, "positions_edited": 0, "declared_positions_edited": 0, "edits": 0,
+                               "changes_inside_free_form_values_not_judged": 0, "library_edit_scenarios": 0, "violating_cases": 0}
+    im_audit = {"reasked": 0, "mismatches": 0}
+    if do_a:
+        from .. import modelops as _mo
+
+        im = im_join()
+        im_info["cases"] = len(im_cases)
+        for n_, a_ in im["audits"].items():
+            im_audit["reasked"] += a_["reasked"]
+            im_audit["mismatches"] += a_["mismatches"]
+            if a_["mismatches"]:
+                res.harness_errors.append(f"nondeterministic input-mutation answer of the {n_} worker (case #{a_['first_mismatch_index']})")
+        for i, c in enumerate(im_cases):
+            model = "parse_message" if c["target"] == "parse_message" else wiregen.short(c["target"])
+            config_cls = c["target"] != "parse_message" and wiregen.is_config_class(wiregen.resolve(c["target"]))
+            hit = False
+            per_pos: Dict[str, Dict[str, Any]] = {}
+            sib: Dict[str, Any] = {}
+            for n in ("pydantic", "fallback"):
+                a = im["answers"][n][i]
+                if "harness_exc" in a:
+                    res.harness_errors.append(f"worker exception (input mutation) on {c['target']} {c['label']}: {a['harness_exc'][-300:]}")
+                    continue
+                if not a.get("ok"):
+                    continue
+                if n == "pydantic":
+                    im_info["positions_edited"] += a.get("positions", 0)
+                    im_info["edits"] += a.get("edits", 0)
+                    from ..modelops import container_positions
+                    im_info["declared_positions_edited"] += sum(
+                        1 for p_ in container_positions(c["wire"]) if c09.position_kind_of(c, list(p_)) == "declared")
+                for ch in a["changed"]:
+                    if c09.position_kind_of(c, ch["path_list"]) != "declared":
+                        im_info["changes_inside_free_form_values_not_judged"] += 1
+                        continue
+                    per_pos.setdefault(ch["position"], {})[n] = ch
+                if a.get("sibling_changed"):
+                    sib[n] = a["sibling_changed"]
+            if config_cls:
+                continue
+            for pos, by in per_pos.items():
+                backend = "both" if len(by) == 2 else next(iter(by))
+                ch = next(iter(by.values()))
+                hit = True
+                report({"class": "input-mutated-after-validation", "backend": backend, "model": model, "position": pos},
+                       f"{model} <- {json.dumps(c['wire'], ensure_ascii=True)[:240]}: editing the wire object in place at the declared "
+                       f"container '{pos}' ({ch['mutation']}) after the object was built changes what the object dumps to under "
+                       f"{backend} ({ch['via']} differs at '{ch['path']}')",
+                       {"part": "inputmut", "target": c["target"], "label": c["label"], "wire": enc(c["wire"])})
+            if sib:
+                backend = "both" if len(sib) == 2 else next(iter(sib))
+                ch = next(iter(sib.values()))
+                hit = True
+                report({"class": "sibling-object-changed", "backend": backend, "model": model,
+                        "position": ch["path"].replace(".vf-own-edit", "")},
+                       f"{model} <- {json.dumps(c['wire'], ensure_ascii=True)[:240]}: two objects built from one wire object; editing "
+                       f"the first one's own members changes the dump of the second at '{ch['path']}' under {backend}",
+                       {"part": "inputmut", "target": c["target"], "label": c["label"], "wire": enc(c["wire"])})
+            if hit:
+                im_info["violating_cases"] += 1
+        for i, lc in enumerate(im["lib"]):
+            im_info["library_edit_scenarios"] += 1
+            name = f"{_mo.LIBEDIT_SCENARIOS[lc['scenario']]} on params {json.dumps(_mo.LIBEDIT_PARAMS[lc['params']])}"
+            bad = {}
+            for n in ("pydantic", "fallback"):
+                a = im["lib_answers"][n][i]
+                if "harness_exc" in a or "exc" in a:
+                    res.harness_errors.append(f"library-edit scenario {name} failed under {n}: {str(a)[:300]}")
+                elif a.get("changed") and a["changed"].get("outer_params_dict_changed"):
+                    bad[n] = a["changed"]
+                elif a.get("changed"):
+                    im_info["changes_inside_free_form_values_not_judged"] += 1
+            if bad:
+                backend = "both" if len(bad) == 2 else next(iter(bad))
+                ch = next(iter(bad.values()))
+                report({"class": "input-mutated-after-validation", "backend": backend,
+                        "model": "library:" + _mo.LIBEDIT_SCENARIOS[lc["scenario"]], "position": "params"},
+                       f"{name}: the params member of a request object built earlier from the same dict gains/loses members "
+                       f"afterwards under {backend} ({ch['via']} differs at '{ch['path']}')",
+                       {"part": "libedit", "scenario": lc["scenario"], "params": lc["params"]})
+
     # ---- order of validation made explicit: ordered pairs of same-named classes, fresh workers ----
     pair_info: Dict[str, Any] = {"groups": {}, "ordered_pairs": 0, "answers_compared_with_alone": 0, "differences": 0}
     if do_a:
@@ -446,10 +548,11 @@ def run(tier: str, only=None) -> core.Result:
     cov["part_B"] = {"serialisers_discovered": len(parent_sites), "variants_driven": variants_total,
                      "distinct_site_variants": len(b_distinct), "sites": site_table, "alias_pairs": alias_pairs}
     cov["violation_signatures"] = dict(sorted(sig_count.items()))
-    cov["audit_reasked"] = audit_total
+    cov["audit_reasked"] = audit_total + im_audit["reasked"]
     cov["audit_mismatches"] = audit_bad
     cov["audit_mismatches_explained_as_order_dependence"] = audit_order
     cov["same_name_pair_order"] = pair_info
+    cov["input_mutated_after_validation"] = im_info
     cov["mutation_isolation"] = iso_info
     cov["configurations"] = {n: {k: v for k, v in h.items() if k in ("PYDANTIC_AVAILABLE", "MCP_FORCE_FALLBACK", "base_module_of_models")}
                              for n, h in hello.items()}
@@ -477,6 +580,7 @@ def run(tier: str, only=None) -> core.Result:
         "numbers are compared by value (1 and 1.0 are the same JSON number); everything else exactly",
         "an object the fallback backend rejects although Pydantic accepts it is a backend disagreement (C09) and only counted here (fallback_only_losses_deferred_to_C09 / rejected-by-fallback); losses under either backend are reported here",
         "transport parameter classes (chuk_mcp.transports.*) are local configuration, not protocol models: driven, differences listed under unjudged_config_class_differences",
+        "input mutated after validation: judged absolutely only at declared containers (the object itself, nested models, members declared List[...] / Dict[...] / dict and declared items of such lists); inside free-form values (Any, values of Dict[str, Any], unknown members) both backends keep the caller's objects - counted, not judged (C09 demands that the backends agree there)",
         "mutation isolation: every validation is given its own freshly decoded wire object, so an object shared by two results cannot come from the input; immutable values (str, int, None, tuple) may be shared; the in-place mutations are undone after each case",
         "the JSON path is json.loads(model_dump_json(by_alias=True, exclude_none=True)) parsed with the standard library",
         "part B judges names only: the produced JSON must not contain, at any depth, the Python attribute name of any aliased member (no generated input uses those words as data keys) and must contain the wire name of every aliased member the input populated",
@@ -491,6 +595,26 @@ def replay_case(args: Dict[str, Any]) -> Dict[str, Any]:
 
     logging.disable(logging.CRITICAL)
     wiregen.discover()
+    if args["part"] in ("inputmut", "libedit"):
+        x = {"op": "libedit", "scenario": args["scenario"], "params": args["params"]} if args["part"] == "libedit" else \
+            {"op": "inputmut", "target": args["target"], "wire": args["wire"]}
+        ans = {cfg["name"]: workers.fresh_sequence(cfg, HANDLER, [x])[0] for cfg in CONFIGS}
+        viol = []
+        for n, a in ans.items():
+            if args["part"] == "libedit":
+                if (a.get("changed") or {}).get("outer_params_dict_changed"):
+                    viol.append({"sig": {"class": "input-mutated-after-validation", "backend": n}, "msg": str(a["changed"])})
+                continue
+            c = {"target": args["target"], "wire": dec(args["wire"])}
+            for ch in a.get("changed", []):
+                if c09.position_kind_of(c, ch["path_list"]) == "declared":
+                    viol.append({"sig": {"class": "input-mutated-after-validation", "backend": n, "position": ch["position"]},
+                                 "msg": f"{ch['mutation']} at {ch['position']}: {ch['via']} differs at {ch['path']}"})
+            if a.get("sibling_changed"):
+                viol.append({"sig": {"class": "sibling-object-changed", "backend": n}, "msg": str(a["sibling_changed"])})
+        if args["part"] == "inputmut" and args["target"] != "parse_message" and wiregen.is_config_class(wiregen.resolve(args["target"])):
+            viol = []
+        return {"part": args["part"], "answers": ans, "violations": viol}
     if args["part"] == "isolation":
         x = {"op": "isolation", "target": args["target"], "wire": args["wire"]}
         ans = {cfg["name"]: workers.fresh_sequence(cfg, HANDLER, [x])[0] for cfg in CONFIGS}
